@@ -147,6 +147,12 @@ class Strikethrough(SpanToken):
     """
     pattern = re.compile(r"(?<!\\)(?:\\\\)*~~(.+?)~~", re.DOTALL)
 
+    @classmethod
+    def find(cls, string):
+        # escaped backslashes in front of the opening delimiter are not part of the token
+        return [core_tokens.MatchObj(match.start(1) - 2, match.end(), (match.start(1), match.end(1), match.group(1)))
+                for match in cls.pattern.finditer(string)]
+
 
 class Image(SpanToken):
     """
@@ -209,6 +215,12 @@ class AutoLink(SpanToken):
         self.children = (RawText(content),)
         self.target = content
         self.mailto = '@' in self.target and 'mailto' not in self.target.casefold()
+
+    @classmethod
+    def find(cls, string):
+        # escaped backslashes in front of the opening bracket are not part of the token
+        return [core_tokens.MatchObj(match.start(1) - 1, match.end(), (match.start(1), match.end(1), match.group(1)))
+                for match in cls.pattern.finditer(string)]
 
 
 class EscapeSequence(SpanToken):
